@@ -72,7 +72,7 @@ func (e *InjectedError) Temporary() bool { return e.Timeoutish }
 func (e *InjectedError) Unwrap() error   { return e.Wraps }
 
 // ErrKinds lists the flavours injected failures come in (index 0 = plain).
-var ErrKinds = []string{"plain", "timeout", "wraps_canceled", "wraps_deadline", "wraps_eof", "wraps_no_topic", "wraps_provider_closed", "wraps_os_deadline"}
+var ErrKinds = []string{"plain", "timeout", "wraps_canceled", "wraps_deadline", "wraps_eof", "wraps_no_topic", "wraps_provider_closed", "wraps_os_deadline", "wraps_not_supported"}
 
 // NewInjected builds an injected error of the given kind.
 func NewInjected(where string, n int, kind string, wrapTargets map[string]error) *InjectedError {
